@@ -61,6 +61,12 @@ CHECKS.update({
          "machine-checked proof in Coq (framer/reader agreement, induction over the stream parser) + independent Python framer oracle on damaged-interior streams"),
 })
 
+CHECKS.update({
+ "C01": ("proof", "Coq theorem over the Gallina mirrors of LDAPMessage.pack and unpack_ldap_message (every _pack_inner / unpack function, filters, controls, credentials): for every well-formed message of all 9 kinds, any filter shape and depth within the recursion budget, any controls, and any trailing octets, decode(encode m ++ rest) = (norm m, rest) and encode(norm m) = encode m, where norm only fills the raw value octets of the paged-results control. Built on the C07 TLV lemmas; no axioms. The model is compared with the implementation on thousands of structured messages per run and an independent field-wise oracle re-checks the property on the implementation.",
+         "Python str fields are represented by their UTF-8 octets (valid UTF-8 <-> surrogate-free str); encodings are assumed shorter than 256^125 octets; a generic control carrying a library-known OID is outside the claim; dataclass equality is compared field-wise by the harness (result codes through .value).",
+         "machine-checked proof in Coq (structural induction over filters on the recursion budget, loop-stepping lemmas) + extracted-model/implementation differential correspondence + round-trip oracle"),
+})
+
 def main():
     m = {
         "version": 1,
